@@ -25,6 +25,13 @@ CLAIMED = {
          "Trusted: Coq kernel, Coquelicot, CoqInterval; axioms of Reals + funext + classic as printed; the translators; decimal literals read as exact decimals; special functions through "
          "hypotheses shown satisfiable (SpecialR.v). NOT proved: closures over instance state (heavy CC h_q, asymptotic intrinsic, LeProHQ heavy NC + Adler) and the one pair using "
          "Nielsen functions above the cut (asy g1 NNLL) — numerical sweep only.", "4 C03"),
+ "C04": ("translator tie; generated Coq obligations: closed forms by field (after ln_div), first moments by a field-checked split into improper group integrals enclosed by "
+         "CoqInterval's integral_intro and combined by lra",
+         "Proof: for all z in (0,1) the regenerated NLO quark and gluon kernels of F2, FL, F3, g1 equal the published closed forms (and the plus-distribution coefficients equal "
+         "(delta, D0, D1) of the literature); for nf = 3..6 the first moments of the nu-nubar F2 (Adler), F3 (GLS, incl. the fl02 piece) and g1 (Bjorken) non-singlet coefficients at "
+         "NNLO and N3LO lie within 0.02 / 0.15 / 0.06 of the sum-rule coefficients. Partial: the identification of the sum of group integrals with the integral over (0,1) "
+         "(linearity, z -> 1-u) is not proved; NLO moments follow from the closed forms and are only evaluated numerically.",
+         "Trusted: Coq kernel, Coquelicot, CoqInterval (primitive floats); the translators; SpecNLO.v and the sum-rule coefficients (literature) are the specification.", "4 C04"),
  "C13": ("Coq theorems (ring/field over an abstract field; finite case analysis nf=3..6 x pid x beam) on the hand-written coupling/weight model; "
          "model tied to the code by differential correspondence (vm_compute, exact rationals)",
          "Proof: e+(P)=e-(-P) and nubar(P)=nu(-P) for every weight incl. the fl11 class; NC weight = EM weight + eta_gammaZ*(...) hence exact "
